@@ -24,6 +24,7 @@ from sc3.synth.node import Synth, Group, ParGroup, RootNode
 from sc3.synth.buffer import Buffer
 from sc3.synth.bus import AudioBus, ControlBus
 from sc3.synth import synthdef as sdf
+from sc3.synth import systemdefs as sds
 
 s = Server.default
 itf = main._osc_interface
@@ -195,6 +196,8 @@ class World:
         s.options.reserved_audio_buses = cfg.get('reserved_audio_buses', 0)
         s._set_client_id(cfg.get('client_id', 0))       # new node / bus / buffer allocators, default groups
         Buffer._server_caches.pop(s, None)
+        if k == 0:
+            sds.SystemDefs._tmp_def_count = 0        # names of the temporary definitions play() generates: per history
         s.latency = DEFAULT_LATENCY if latency is None else float(Fraction(latency))
         self.passed = []          # mutable argument objects handed to the library by the current op
         self.nodes, self.bufs, self.buses = [], [], []
@@ -303,6 +306,41 @@ def the_synthdef():
     return _SD
 
 
+INFO = {}        # what the current op learnt from the objects the library returned (generated definition name ...)
+
+
+def play_graph(freq=440, amp=0.1, pan=0):
+    from sc3.synth.ugens import SinOsc
+    return SinOsc.ar(freq) * amp
+
+
+def do_play(w, op):
+    """the play() entry point: a function or a Buffer becomes a temporary definition + a Synth client object"""
+    from sc3.base.play import play
+    a = val(w, op['args'])
+    ob = val(w, op['outbus'])
+    sw = w.srv._status_watcher
+    saved = (sw._has_booted, sw._notified)
+    sw._has_booted = sw._notified = True           # precondition of play(): the server is running
+    orig = sdf.SynthDef._do_send
+
+    def rec(self_, server, completion_msg):
+        INFO['defbytes'] = len(bytes(self_.as_bytes()))
+        return orig(self_, server, completion_msg)
+    sdf.SynthDef._do_send = rec
+    w.nodes.append(None)
+    try:
+        if op['kind'] == 'func':
+            x = play(play_graph, target(w, op['target']), ob, op['fade'], op['action'], a)
+        else:
+            x = play(w.bufs[op['b']], op['loop'], 0.5, outbus=ob, fade=op['fade'], add_action=op['action'], args=a)
+    finally:
+        sdf.SynthDef._do_send = orig
+        sw._has_booted, sw._notified = saved
+    w.nodes[-1] = x
+    INFO['defname'] = x.def_name
+
+
 def drive(call):
     """run `call`; every routine it (or a routine it starts) plays is captured instead of being scheduled and is then run
     to its end from here, each resumption standing for the elapsed wait / the server's reply"""
@@ -356,6 +394,8 @@ def exec_op(w, op):
             N[-1] = cls(t, op['action'])
         else:
             N[-1] = getattr(cls, c)(t)
+    elif o == 'play':
+        do_play(w, op)
     elif o == 'basic_new':       # client-side only object with a user supplied id
         N.append(None); N[-1] = Group.basic_new(w.srv, op['id'])
     elif o in ('n_set', 'n_setn', 'n_map', 'n_mapa', 'n_mapn', 'n_mapan', 'seti'):
@@ -521,7 +561,9 @@ def run_history(ops, latency=None, config=None):
 
     def mark(i, exc=None):
         steps[i] = {'ev': LOG[:], 'exc': exc, 'alloc': w.alloc[:], 'free': w.free[:]}
-        LOG.clear(); w.alloc.clear(); w.free.clear()
+        if INFO:
+            steps[i]['info'] = dict(INFO)
+        LOG.clear(); w.alloc.clear(); w.free.clear(); INFO.clear()
 
     def level(pos):
         """run ops from pos at the current nesting level; returns (next_pos, k) where k > 0 means an
